@@ -11,6 +11,7 @@ import (
 	"math/big"
 	"math/rand"
 	"strings"
+	"sync"
 
 	"github.com/trustbloc/sidetree-go/pkg/jws"
 	"github.com/trustbloc/sidetree-go/pkg/jwsutil"
@@ -141,6 +142,50 @@ func genC15(seed int64, tier string) []caseOut {
 			NonTri: fmt.Sprintf("%x", h[:8]),
 		})
 	}
+	// one signer instance used by several goroutines at once: every JWS it hands out verifies
+	for _, kind := range keyKinds {
+		k := genKey(r, kind)
+		sg := k.signer()
+		const workers, each = 8, 6
+		results := make([][]string, workers)
+		payloads := make([][][]byte, workers)
+		var wg sync.WaitGroup
+		for w := 0; w < workers; w++ {
+			payloads[w] = make([][]byte, each)
+			for j := range payloads[w] {
+				payloads[w][j] = []byte(fmt.Sprintf(`{"worker":%d,"n":%d,"pad":"%s"}`, w, j, strings.Repeat("x", 200+37*w+j)))
+			}
+			wg.Add(1)
+			go func(w int) {
+				defer wg.Done()
+				defer func() { recover() }()
+				for j := 0; j < each; j++ {
+					c, err := signutil.SignPayload(payloads[w][j], sg)
+					if err != nil {
+						c = ""
+					}
+					results[w] = append(results[w], c)
+				}
+			}(w)
+		}
+		wg.Wait()
+		reported := 0
+		for w := 0; w < workers; w++ {
+			for j := 0; j < each; j++ {
+				c := ""
+				if j < len(results[w]) {
+					c = results[w][j]
+				}
+				_, ok := implVerify(c, sg.jwk)
+				if (!ok && reported < 2) || (w == 0 && j == 0) {
+					if !ok {
+						reported++
+					}
+					add(kind+":signed-concurrently-by-one-signer", sg.jwk, c, true, string(payloads[w][j]))
+				}
+			}
+		}
+	}
 	for round := 0; round < per; round++ {
 		keys := map[string]*keyPair{}
 		for _, kind := range keyKinds {
@@ -258,6 +303,14 @@ func genC15(seed int64, tier string) []caseOut {
 				rsa := *sg.jwk
 				rsa.Kty = "RSA"
 				add(kind+":unsupported-key-type", &rsa, compact, false, "")
+				// the curve named in another letter case is another (unsupported) curve name
+				for _, alt := range []string{strings.ToUpper(sg.jwk.Crv), strings.ToLower(sg.jwk.Crv), strings.Title(strings.ToLower(sg.jwk.Crv))} {
+					if alt != sg.jwk.Crv {
+						cv := *sg.jwk
+						cv.Crv = alt
+						add(kind+":curve-name-other-case:"+alt, &cv, compact, false, "")
+					}
+				}
 				// key with a coordinate of the wrong width / off curve
 				if k.kind != "Ed25519" {
 					bad := *sg.jwk
@@ -428,8 +481,28 @@ func genC16(seed int64, tier string) []caseOut {
 			Label: kind + ":verify-genuine-then-invalid", NonTri: fmt.Sprintf("%x", h[:8]),
 		})
 	}
+	// the curves' parameters as they are before anything is read (they belong to the whole process)
+	paramSnap := func() string {
+		var b strings.Builder
+		for _, kind := range []string{"P-256", "P-384", "P-521", "secp256k1"} {
+			c, _, _, _ := curveOf(kind)
+			pr := c.Params()
+			fmt.Fprintf(&b, "%s:%s,%s,%s,%s,%s;", kind, pr.P, pr.N, pr.B, pr.Gx, pr.Gy)
+		}
+		return b.String()
+	}
+	paramsBefore := paramSnap()
 	for _, kind := range []string{"P-256", "P-384", "P-521", "secp256k1"} {
 		curve, w, _, _ := curveOf(kind)
+		fieldPrime := new(big.Int).Set(curve.Params().P)
+		// coordinates just below the field prime are coordinates like any other, on first use and later
+		for k, found := int64(1), 0; k < 200 && found < 4; k++ {
+			x := new(big.Int).Sub(fieldPrime, big.NewInt(k))
+			if y, ok := pointWithX(kind, x); ok && curve.IsOnCurve(x, y) {
+				addEC(fmt.Sprintf("%s:x-just-below-field-prime-%d", kind, k), kind, x, y)
+				found++
+			}
+		}
 		// random keys
 		for i := 0; i < n; i++ {
 			k := genKey(r, kind)
@@ -441,7 +514,7 @@ func genC16(seed int64, tier string) []caseOut {
 		if kind == "secp256k1" {
 			// coordinates between the group order and the field prime are coordinates like any other
 			x := new(big.Int).Set(curve.Params().N)
-			for found := 0; found < 3 && x.Cmp(curve.Params().P) < 0; x.Add(x, big.NewInt(1)) {
+			for found, tries := 0, 0; found < 3 && tries < 400 && x.Cmp(fieldPrime) < 0; x, tries = x.Add(x, big.NewInt(1)), tries+1 {
 				if y, ok := pointWithX(kind, x); ok && curve.IsOnCurve(x, y) {
 					addEC(kind+":x-at-least-group-order", kind, new(big.Int).Set(x), y)
 					found++
@@ -476,6 +549,29 @@ func genC16(seed int64, tier string) []caseOut {
 			}
 		}
 	}
+	// the same coordinates once more after everything above has been read, and the parameters themselves
+	for _, kind := range []string{"P-256", "secp256k1"} {
+		curve, _, _, _ := curveOf(kind)
+		fp := map[string]string{"P-256": "115792089210356248762697446949407573530086143415290314195533631308867097853951",
+			"secp256k1": "115792089237316195423570985008687907853269984665640564039457584007908834671663"}[kind]
+		fieldPrime, _ := new(big.Int).SetString(fp, 10)
+		for k, found := int64(1), 0; k < 200 && found < 4; k++ {
+			x := new(big.Int).Sub(fieldPrime, big.NewInt(k))
+			if y, ok := pointWithX(kind, x); ok && curve.IsOnCurve(x, y) {
+				addEC(fmt.Sprintf("%s:x-just-below-field-prime-%d-read-late", kind, k), kind, x, y)
+				found++
+			}
+		}
+	}
+	{
+		same := paramsBefore == paramSnap()
+		h := sha256.Sum256([]byte("curve-parameters"))
+		out = append(out, caseOut{
+			Coq:   fmt.Sprintf("(mk_c16params %s)", cBool(same)),
+			Rec:   map[string]interface{}{"curve_parameters_unchanged_by_the_run": same},
+			Label: "curve-parameters", NonTri: fmt.Sprintf("%x", h[:8]),
+		})
+	}
 	// Ed25519
 	for i := 0; i < n; i++ {
 		k := genKey(r, "Ed25519")
@@ -495,9 +591,11 @@ func genC16(seed int64, tier string) []caseOut {
 		}
 		var tamp []string
 		if err == nil {
-			for _, bad := range [][]byte{pub[:31], append([]byte{0}, pub...), {}} {
+			for _, badX := range []string{b64(pub[:31]), b64(append([]byte{0}, pub...)), "",
+				// a short x brought to the usual text length by characters the decoder skips
+				b64(pub[:31]) + "\n", "\n" + b64(pub[:31]), b64(pub[:30]) + "\r\n\n", b64(pub)[:42] + "\n", b64(pub) + "\n" + "AA"} {
 				t := *j
-				t.X = b64(bad)
+				t.X = badX
 				_, e := jwsutil.GetED25519PublicKey(&t)
 				tamp = append(tamp, fmt.Sprintf("(%s, %s)", coqJWK(&t), cBool(e == nil)))
 			}
